@@ -43,6 +43,20 @@ CLAIMED.update({
  'C20': ('bounded symbolic model checking with the URNG replaced by fresh symbolic words shared between fcppt and std::uniform_int_distribution (= every engine output sequence, not a sample of seeds): transparency of variate/basic/'
          'uniform_int/enum/indices/uniform_container, parameters handed through, result in [a,b], both ends reachable (SAT witnesses), empty container => nothing, basic_pseudo == minstd_rand for a symbolic seed', '3 C20'),
 })
+CLAIMED.update({
+ 'C07': ('bounded symbolic model checking by ONE INDUCTIVE STEP per operation from an arbitrary valid representation (size/capacity grid cap <= 4 quick, 6 thorough; contents, positions, counts, values and the aliasing choice symbolic): '
+         'every raw_vector operation and constructor against the std::vector sequence model incl. returned iterators, capacity >= size, executor memory checks and leak check; 2-4 step histories through the public API; buffer histories hand exactly the read area to to_raw_vector', '3 C07'),
+ 'C08': ('bounded symbolic model checking by the INDUCTIVE characterisation at full 64-bit width (only assumption: the cell count fits size_t): offset(0)=0, in-range => offset < contents, offset(next)=offset+1, successor of last = end, injectivity, '
+         'for whole grids and (min,sup) sub-ranges, N=1,2,3, through the real pos_iterator/pos_range; real grids up to 3x3x2 for at_optional/fill/map/resize/apply/pos_ref_range with uninterpreted cell functions; clamp helpers full range', '3 C08'),
+ 'C09': ('bounded symbolic model checking of operation histories chosen by the solver (operation code, operand nodes among roots and inner nodes, positions, values) from six base forests, k <= 2 quick / 4 thorough: after every step '
+         'parent/child consistency for every reachable node, traversals and metrics against a reference forest, deep independent copies, leak/use-after-free checks', '3 C09'),
+ 'C11': ('bounded symbolic model checking of solver-chosen histories (k <= 3 quick, 5 thorough) over pools of heap lists/elements and signals/connections: after every step each live list iterates exactly the model sequence in both directions '
+         'and terminates; signal calls invoke exactly the live callbacks once in order with a left fold (uninterpreted callbacks + call log); unregister exactly once; stale links are use-after-free findings', '3 C11'),
+ 'C18': ('bounded symbolic model checking: int_range/int_iterator inductive step and size for 9 integer types at full width, enum ranges over symbolic sub-ranges, cyclic_iterator advance(n) for n = q*L+r with |q| <= 2^59 and L = 1..6 '
+         '(advance(n+-1) = step(advance(n)), stays inside), spiral ranges d = 0..6 from a symbolic origin (count, Manhattan bound, ring sizes, monotone distance, pairwise distinct), neighbour helpers', '3 C18'),
+ 'C19': ('bounded symbolic model checking of the SEQUENTIAL semantics and the LOCK DISCIPLINE of the real log sources (unity build, -DENABLE_THREADS): solver-chosen histories (k <= 3 quick, 4 thorough) of set/get/object creation over the 7 locations '
+         'of depth <= 2 against latest-set-on-a-prefix, enabled()/emission decision, formatter nesting; pthread mutex as held-flag: probes assert the lock is held inside every tree-walking/mutating internal and released on return. Thread interleavings are outside this technique here (stated)', '3 C19'),
+})
 NA = {}
 ALL = ['C%02d' % i for i in range(1, 21)]
 def main():
